@@ -48,22 +48,23 @@ def crun (c : Conf) : List Nat → Conf
   | [] => c
   | t :: ts => crun (cstep c t) ts
 
-/-- Any number of threads, thread `i` runs the operations `progs i` (possibly none). -/
-def cinit (progs : Nat → List Op) : Conf := ⟨St.init, none, fun i => ⟨progs i, .idle, St.init⟩⟩
+/-- Any number of threads, thread `i` runs the operations `progs i` (possibly none), on a model whose
+(configured) initial state is `s0`. -/
+def cinit (s0 : St) (progs : Nat → List Op) : Conf := ⟨s0, none, fun i => ⟨progs i, .idle, s0⟩⟩
 
-structure CInv (c : Conf) : Prop where
+structure CInv (s0 : St) (c : Conf) : Prop where
   excl : ∀ t, (c.thr t).phase ≠ .idle → c.holder = some t
   fresh : ∀ t, (c.thr t).phase = .read → (c.thr t).seen = c.st
-  serial : ∃ ops, c.st = run St.init ops
+  serial : ∃ ops, c.st = run s0 ops
 
-theorem cinv_init (progs : Nat → List Op) : CInv (cinit progs) :=
+theorem cinv_init (s0 : St) (progs : Nat → List Op) : CInv s0 (cinit s0 progs) :=
   ⟨fun t h => absurd rfl h, fun t h => by simp [cinit] at h, ⟨[], rfl⟩⟩
 
 theorem setThr_same (c : Conf) (t : Nat) (x : Thr) : setThr c t x t = x := by simp [setThr]
 
 theorem setThr_other (c : Conf) (t u : Nat) (x : Thr) (h : u ≠ t) : setThr c t x u = c.thr u := by simp [setThr, h]
 
-theorem cstep_inv {c : Conf} (hi : CInv c) (t : Nat) : CInv (cstep c t) := by
+theorem cstep_inv {s0 : St} {c : Conf} (hi : CInv s0 c) (t : Nat) : CInv s0 (cstep c t) := by
   unfold cstep
   cases htodo : (c.thr t).todo with
   | nil => exact hi
@@ -120,7 +121,7 @@ theorem cstep_inv {c : Conf} (hi : CInv c) (t : Nat) : CInv (cstep c t) := by
           exact absurd (Option.some.inj this).symm hut
       · obtain ⟨ops, hops⟩ := hi.serial
         refine ⟨ops ++ [op], ?_⟩
-        show (step (c.thr t).seen op).1 = run St.init (ops ++ [op])
+        show (step (c.thr t).seen op).1 = run s0 (ops ++ [op])
         rw [run_append, ← hops, hseen]; rfl
     | written =>
       simp only
@@ -139,7 +140,7 @@ theorem cstep_inv {c : Conf} (hi : CInv c) (t : Nat) : CInv (cstep c t) := by
         · simp only [setThr_other c t u _ hut] at hu ⊢
           exact hi.fresh u hu
 
-theorem crun_inv {c : Conf} (hi : CInv c) (sched : List Nat) : CInv (crun c sched) := by
+theorem crun_inv {s0 : St} {c : Conf} (hi : CInv s0 c) (sched : List Nat) : CInv s0 (crun c sched) := by
   induction sched generalizing c with
   | nil => exact hi
   | cons t ts ih => exact ih (cstep_inv hi t)
